@@ -37,6 +37,7 @@ def main():
             spec = json.load(open(a.replay))
             R.replay_key = spec.get("finding", {}).get("key")
         explanation = mod.run(repo, R)
+        R.no_evidence = a.no_evidence
         code = R.finish(explanation, exhaustive=getattr(R, "exhaustive", None))
         if a.replay:
             key = getattr(R, "replay_key", None)
